@@ -34,8 +34,13 @@ var swaps = map[token.Token][]string{
 	token.ADD: {"-"}, token.SUB: {"+"},
 }
 
+// strLits (second argument "strings"): list mutations of string literals only (import paths excluded by position: only
+// literals inside function bodies and variable initialisers are visited).
+var strLits bool
+
 func main() {
 	root := os.Args[1]
+	strLits = len(os.Args) > 2 && os.Args[2] == "strings"
 	var out []mutant
 	fset := token.NewFileSet()
 	filepath.Walk(root, func(p string, info os.FileInfo, err error) error {
@@ -76,6 +81,9 @@ func main() {
 				name = "<decl>"
 			}
 			add := func(s, e token.Pos, repl, kind string) {
+				if strLits != strings.HasPrefix(kind, "str ") {
+					return
+				}
 				out = append(out, mutant{File: rel, Start: off(s), End: off(e), New: repl, Kind: kind, Func: name,
 					Line: fset.Position(s).Line, Old: string(src[off(s):off(e)])})
 			}
@@ -103,7 +111,21 @@ func main() {
 						add(x.OpPos, x.OpPos+1, "", "drop !")
 					}
 				case *ast.BasicLit:
-					if x.Kind == token.INT && inLit == 0 {
+					if x.Kind == token.STRING && strLits && len(x.Value) >= 3 && x.Value[0] == '"' {
+						if v, err := strconv.Unquote(x.Value); err == nil && len(v) >= 1 {
+							add(x.Pos(), x.End(), strconv.Quote(v[:len(v)-1]), "str drop-last")
+							add(x.Pos(), x.End(), strconv.Quote(v+"x"), "str append")
+							r := []byte(v)
+							if r[0] >= 'a' && r[0] <= 'z' {
+								r[0] -= 0x20
+								add(x.Pos(), x.End(), strconv.Quote(string(r)), "str upper-first")
+							} else if r[0] >= 'A' && r[0] <= 'Z' {
+								r[0] += 0x20
+								add(x.Pos(), x.End(), strconv.Quote(string(r)), "str lower-first")
+							}
+						}
+					}
+					if x.Kind == token.INT && inLit == 0 && !strLits {
 						if v, err := strconv.ParseInt(x.Value, 0, 64); err == nil {
 							add(x.Pos(), x.End(), fmt.Sprint(v+1), "lit+1")
 							if v > 0 {
